@@ -106,6 +106,12 @@ func (this *partition) loadRaft(nodeIds []uint64) error {
 	this.raftMu.Lock()
 	defer this.raftMu.Unlock()
 
+	if this.raft != nil {
+		// Already loaded. A restart replays both the allocator's watch of the partition and the
+		// node change that added this node; loading twice would replace the running group by nil.
+		return nil
+	}
+
 	var err error
 	this.raft, err = raft.NewRaftGroup(this.id, nodeIds, this.wal, this.raftTransport)
 	if err != nil {
